@@ -70,7 +70,7 @@ def emit_item(t):
             ctor = f"{init} {{ {', '.join(args)} }}" if named else f"{init}({', '.join(args)})"
             dflt = f"D::Def(_) => <Self as DynDefault>::dyn_default(bytes)," if t.has_default else ""
             sets = " ".join(f"{i} => {{ self.{fname(i, n)} = from_raw::<{ft.rs()}>(img_); }}" for i, (n, ft) in enumerate(sized_fs))
-            o.append(f"impl Editable for {t.name} {{ fn edit(&mut self, op: &Op) -> String {{ match op {{ Op::SetField(_, fi_, img_) => {{ match fi_ {{ {sets} _ => panic!(\"harness: no such sized field\") }} \"ok\".into() }} Op::Assign(d) => match self.assign_in_place(de::<Self>(d)) {{ Ok(_) => \"ok\".into(), Err(e) => format!(\"err:{{}}\", err_str(&e)) }}, _ => panic!(\"harness: operation not applicable to this type\") }} }} }}")
+            o.append(f"impl Editable for {t.name} {{ fn edit(&mut self, op: &Op) -> String {{ match op {{ Op::SetField(_, fi_, img_) => {{ match fi_ {{ {sets} _ => panic!(\"harness: no such sized field\") }} \"ok\".into() }} Op::Assign(d) => match self.assign_in_place(de::<Self>(d)) {{ Ok(_) => \"ok\".into(), Err(e) => format!(\"err:{{}}\", err_str(&e)) }}, Op::Last(o_) => self.{fname(len(sized_fs), ln)}.edit(o_), _ => panic!(\"harness: operation not applicable to this type\") }} }} }}")
             hooks = "default_hooks!();" if t.has_default else ""
             o.append(f"impl DynTarget for {t.name} {{ {hooks} unsafe fn dyn_emplace<'a>(d: &D, bytes: &'a mut [u8]) -> Result<&'a mut Self, Error> {{ match d {{ D::Struct(f, l) => {{ let _ = f; {ctor}.emplace_unchecked(bytes) }} {dflt} _ => panic!(\"harness: bad initialiser for {t.name}\") }} }} }}")
     else:
